@@ -146,15 +146,16 @@ Proof.
 Qed.
 Print Assumptions C11_lifetime_covers_views_refuted_before_fix.
 
-(* finding F11b (confirmed on the real pass, NOT repaired): a memref that leaves a region through its terminator
-   aliases the buffer without being followed: `alias_followed` is false and the conclusion of
-   C11_lifetime_covers_views fails.  The program (converted from the real IR by the harness) is
+(* F11b (confirmed on the real pass, then repaired in /repo 051ab2c): a memref that leaves a region through its
+   terminator aliases the buffer.  BEFORE the repair the analysis had nothing to follow at the terminator
+   (pseudo-result recorded as not followed): `alias_followed` was false and the conclusion of
+   C11_lifetime_covers_views failed.  The program (converted from the real IR by the harness) is
      %a0 alloc (5), %m0 cast (6), %a1 alloc (7), %m1 cast (8),
      %r = scf.if -> memref { yield %m0 } else { yield %m1 } (9), use %m1 (10), %a2 alloc (11), %m2 cast (12),
      use %m2 (13), use (%r, %m2) (14)
-   snax-allocate{mode=minimalloc} hands the solver the intervals [5,9) [7,10) [11,14) and the third buffer gets the
-   address of the first while %r is still used at 14. *)
-Definition probe_f11b : list aop :=
+   snax-allocate{mode=minimalloc} handed the solver the intervals [5,9) [7,10) [11,14) and the third buffer got the
+   address of the first while %r was still used at 14. *)
+Definition probe_f11b_with (followed_flag : bool) : list aop :=
   [ mkOp KOther 0 [] [(1%nat, false)] false 0 0 0; mkOp KOther 1 [] [(2%nat, false)] false 0 0 0;
     mkOp KOther 2 [] [(3%nat, false)] false 0 0 0; mkOp KOther 3 [] [(4%nat, false)] false 0 0 0;
     mkOp KOther 4 [] [(5%nat, false)] false 0 0 0;
@@ -162,19 +163,21 @@ Definition probe_f11b : list aop :=
     mkOp KCast 6 [6%nat] [(7%nat, true)] true 0 0 0;
     mkOp KAlloc 7 [2%nat; 1%nat; 1%nat] [(8%nat, false)] false 64 1 0;
     mkOp KCast 8 [8%nat] [(9%nat, true)] true 0 0 0;
-    mkOp KOther 9 [3%nat] [(10%nat, true)] false 0 0 0;           (* scf.if, result %r = value 10 *)
-    mkOp KOther 9 [7%nat] [] false 0 0 0;                          (* scf.yield %m0 *)
-    mkOp KOther 9 [7%nat] [(10%nat, false)] true 0 0 0;           (* ... makes %r alias %m0; nothing to follow *)
-    mkOp KOther 9 [9%nat] [] false 0 0 0;                          (* scf.yield %m1 *)
-    mkOp KOther 9 [9%nat] [(10%nat, false)] true 0 0 0;
+    mkOp KOther 9 [3%nat] [(10%nat, true)] false 0 0 0;                   (* scf.if, result %r = value 10 *)
+    mkOp KOther 9 [7%nat] [] false 0 0 0;                                  (* scf.yield %m0 *)
+    mkOp KOther 9 [7%nat] [(10%nat, followed_flag)] true 0 0 0;           (* ... makes %r alias %m0 *)
+    mkOp KOther 9 [9%nat] [] false 0 0 0;                                  (* scf.yield %m1 *)
+    mkOp KOther 9 [9%nat] [(10%nat, followed_flag)] true 0 0 0;
     mkOp KOther 10 [9%nat] [] false 0 0 0;
     mkOp KAlloc 11 [2%nat; 1%nat; 1%nat] [(11%nat, false)] false 64 1 0;
     mkOp KCast 12 [11%nat] [(12%nat, true)] true 0 0 0;
     mkOp KOther 13 [12%nat] [] false 0 0 0;
     mkOp KOther 14 [10%nat; 12%nat] [] false 0 0 0;
     mkOp KOther 15 [] [] false 0 0 0 ].
+Definition probe_f11b : list aop := probe_f11b_with false.          (* the analysis before the repair *)
+Definition probe_f11b_fixed : list aop := probe_f11b_with true.     (* the repaired analysis follows the parent's results *)
 
-Theorem C11_lifetime_covers_views_refuted_region_result : exists prog a o,
+Theorem C11_lifetime_covers_views_refuted_region_result_before_fix : exists prog a o,
   alias_followed prog = false /\ alloc_alone prog = true /\ In a (allocs prog) /\ In o prog /\
   uses_any o (closure aliased prog [res0 a]) = true /\ (end_time prog a < o_top o)%nat /\
   buffers prog = [mkBuf 5 9 64 1; mkBuf 7 10 64 1; mkBuf 11 14 64 1].
@@ -182,7 +185,15 @@ Proof.
   exists probe_f11b, (mkOp KAlloc 5 [2%nat; 1%nat; 1%nat] [(6%nat, false)] false 64 1 0), (mkOp KOther 14 [10%nat; 12%nat] [] false 0 0 0).
   repeat split; try reflexivity; cbn; auto 25.
 Qed.
-Print Assumptions C11_lifetime_covers_views_refuted_region_result.
+Print Assumptions C11_lifetime_covers_views_refuted_region_result_before_fix.
+
+(* the same program with the repaired code: the hypotheses of C11_lifetime_covers_views / C11_minimalloc_safe hold and
+   the three lifetimes [5,14) [7,14) [11,14) overlap (the real pass now places them at 65536, 65600, 65664) *)
+Example C11_region_result_after_fix :
+  wf_prog probe_f11b_fixed = true /\
+  buffers probe_f11b_fixed = [mkBuf 5 14 64 1; mkBuf 7 14 64 1; mkBuf 11 14 64 1].
+Proof. split; reflexivity. Qed.
+Print Assumptions C11_region_result_after_fix.
 
 (* create_memref_struct, dynamic mode: for every run-time allocator honouring the aligned-allocator contract,
    the descriptor's access pointer (field 1) is the allocator's aligned pointer for this alloc's alignment *)
